@@ -40,6 +40,8 @@ type backend struct {
 	fail func(reads, writes int)
 	// failFetch makes the next n accepted reads fail while their first row is fetched (SQL back ends)
 	failFetch func(n int)
+	// failPrepares makes the next n statement preparations fail (SQL back ends)
+	failPrepares func(n int)
 	// writeFault selects how injected write failures look (see ddb.Table.WriteFault) and what happens meanwhile
 	writeFault func(kind string, meanwhile func())
 }
@@ -60,7 +62,7 @@ func backends() []func() backend {
 				ms = persistence.NewSQLMetastore(h, persistence.WithSQLMetastoreDBType(persistence.Oracle))
 			}
 			return backend{name: "sql-" + string(d), ms: ms, probe: func() string { return "" }, close: func() { h.Close(); db.Drop() },
-				fail: func(rd, wr int) { db.SetFailReads(rd); db.SetFailWrites(wr) }, failFetch: db.SetFailFetch}
+				fail: func(rd, wr int) { db.SetFailReads(rd); db.SetFailWrites(wr) }, failFetch: db.SetFailFetch, failPrepares: db.SetFailPrepares}
 		}
 	}
 	ddbv1 := func(table string, suffix bool) func() backend {
@@ -625,6 +627,39 @@ func backendFaults(r *ev.Run) {
 			continue
 		}
 		kind := strings.SplitN(b.name, "/", 2)[0]
+		if b.failPrepares != nil {
+			// the very first calls of a metastore instance hit a connection that hiccups (also with a caller whose
+			// context is already cancelled): they may fail, but once the trouble is over the instance works
+			for first := 0; first < 3; first++ {
+				fb := mk()
+				rec := &appencryption.EnvelopeKeyRecord{Created: 1700000000, EncryptedKey: []byte("k"), ParentKeyMeta: &appencryption.KeyMeta{ID: "_SK_s_p", Created: 1}}
+				cctx, cancel := context.WithCancel(ctx)
+				if first == 2 {
+					cancel()
+				} else {
+					fb.failPrepares(2)
+				}
+				switch first {
+				case 0:
+					_, _ = fb.ms.Load(cctx, "first", rec.Created)
+				case 1:
+					_, _ = fb.ms.Store(cctx, "first-x", rec.Created, rec)
+				default:
+					_, _ = fb.ms.LoadLatest(cctx, "first")
+				}
+				cancel()
+				fb.failPrepares(0)
+				ok, err := fb.ms.Store(ctx, "first", rec.Created, rec)
+				got, lerr := fb.ms.Load(ctx, "first", rec.Created)
+				gl, llerr := fb.ms.LoadLatest(ctx, "first")
+				r.Eval(1)
+				if !ok || err != nil || lerr != nil || llerr != nil || world.DiffEKR(rec, got) != "" || world.DiffEKR(rec, gl) != "" {
+					r.Violation("metastore-unusable-after-failed-first-call:"+kind, fmt.Sprintf("backend %s: the first call of the instance failed (variant %d); afterwards, with the database healthy, Store=(%v,%v) Load err=%v LoadLatest err=%v", fb.name, first, ok, err, lerr, llerr), nil)
+				}
+				r.Count("failed_first_call_cases", 1)
+				fb.close()
+			}
+		}
 		for i := 0; i < 40; i++ {
 			id := fmt.Sprintf("fault-%d", i)
 			want := &appencryption.EnvelopeKeyRecord{Created: int64(1700000000 + i), EncryptedKey: []byte(fmt.Sprintf("k-%d", i)), ParentKeyMeta: &appencryption.KeyMeta{ID: "_SK_s_p", Created: 1}}
